@@ -5,6 +5,8 @@ T  lean/Cherab/Props/C16.lean       generic: invalidation protocol (no_stale => 
    lean/Cherab/Props/C16Table.lean  wf_* / covered_* / *_settings_follow on the tables generated from the source
    lean/Cherab/Props/C16Init.lean   init_total_* on the generated tables
    lean/Cherab/Props/C16Alias.lean  no_alias_* (no attribute keeps a caller-owned container, except the documented ones)
+   lean/Cherab/Props/C16Machines.lean  value-level machines of Spectrometer / Polychromator: history = fresh instrument, rejected
+                                    assignment changes nothing, constructor = fresh state, stored arrays always accepted layouts
 K  translator   harness/translators/instrument_edges.py -> lean/Cherab/Gen/InstrumentEdges.lean (every run)
    shape stream the generated tables are *interpreted* by the Lean model (native driver) along random and exhaustive
                 histories of setter / getter / method calls on the real classes: exception kind, which attributes are
@@ -1044,6 +1046,259 @@ def _note_inexact():
     return True
 
 
+# ------------------------------------------------------------------------------------------------ value-level machines (round 6)
+def _arr_line(arrs):
+    return '%d %s' % (len(arrs), ' '.join('%d %s' % (len(a), fs([float(x) for x in a])) for a in arrs))
+
+
+def _m2chk(real, val, hist, what, rel=0.0):
+    """result kind exact; numbers bit for bit (rel == 0) or to `rel` (calibrate: raysect's integrate against dens*(b-a))"""
+    def eq(x, y):
+        return (f2b(x) == f2b(y) or x == y) if rel == 0.0 else close(x, y, rel)
+
+    def chk(out):
+        t = out.split()
+        if not t or t[0] != real:
+            return '%s: model %s, implementation %s' % (what, out[:80], real)
+        if real == 'num':
+            return None if eq(b2f(t[1]), val) else '%s: model %r implementation %r' % (what, b2f(t[1]), val)
+        if real == 'int':
+            return None if int(t[1]) == val else '%s: int model %s implementation %s' % (what, t[1], val)
+        if real in ('str', 'names'):
+            m = [bytes.fromhex(x).decode() if x != '-' else '' for x in t[1:]]
+            want = [val] if real == 'str' else val
+            return None if m == want else '%s: names model %r implementation %r' % (what, m, want)
+        if real == 'arrays':
+            flat, i, arrs = t[1:], 0, []
+            while i < len(flat):
+                k = int(flat[i])
+                arrs.append([b2f(x) for x in flat[i + 1:i + 1 + k]])
+                i += 1 + k
+            ok = len(arrs) == len(val) and all(len(a) == len(b) and all(eq(x, y) for x, y in zip(a, b)) for a, b in zip(arrs, val))
+            return None if ok else '%s: arrays model %r implementation %r' % (what, arrs[:1], val[:1])
+        if real in ('filters', 'kwargs'):
+            w = 4 if real == 'filters' else 5
+            flat = t[1:]
+            if len(flat) != w * len(val):
+                return '%s: %s model has %d entries, implementation %d' % (what, real, len(flat) // w, len(val))
+            for i, v in enumerate(val):
+                g = flat[w * i:w * i + w]
+                strs = [bytes.fromhex(x).decode() if x != '-' else '' for x in g[:w - 3]]
+                nums = [b2f(x) for x in g[w - 3:]]
+                if strs != list(v[:w - 3]) or not all(eq(a, b) for a, b in zip(nums, v[w - 3:])):
+                    return '%s: %s entry %d model %r %r implementation %r' % (what, real, i, strs, nums, v)
+            return None
+        return None
+    chk.history, chk.what = hist, what
+    return chk
+
+
+def spectrometer_machine(ctx, stream, n):
+    """K for `spInit` / `spStep` (Model/InstrumentMachines.lean): the same construction and history — accepted and rejected
+    assignments, every getter, calibrate — on a real `Spectrometer` and on the value-level machine.  Everything is compared
+    bit for bit except `calibrate` (1e-9: raysect's integrate against density x width)."""
+    from raysect.optical import Spectrum
+    from cherab.tools.spectroscopy import Spectrometer
+    rng = ctx.rng
+    bad_w2p = [b for b in BAD['wavelength_to_pixel'] if all(not isinstance(x, list) for a in b for x in a)]
+    W = 'value-level machine: Spectrometer'
+    for it in range(n):
+        both = rng.random() < 0.06
+        w2p = rng.choice(bad_w2p) if both or rng.random() < 0.1 else gen_w2p(rng)
+        mbpp = rng.choice([0, -3, -1]) if both or rng.random() < 0.1 else _gen_value(rng, 'min_bins_per_pixel')
+        name = rng.choice(NAMES)
+        hist = [['new', w2p, mbpp, name]]
+        try:
+            inst = Spectrometer([list(a) for a in w2p], mbpp, name)
+            real = 'done'
+        except ValueError:
+            inst, real = None, 'ValueError'
+        stream.add('spm new %d %s %s' % (mbpp, hexs(name), _arr_line(w2p)), _m2chk(real, None, list(hist), W), 'machine-spectrometer')
+        ctx.count('machine-spectrometer:new' + (':rejected' if inst is None else ''))
+        if inst is None:
+            ctx.case(key=('spm', json.dumps(hist)[:300]))
+            continue
+        forced = ['getBins', 'getKwargs'] if rng.random() < 0.5 else []
+        for _ in range(rng.randint(2, 12)):
+            k = rng.random()
+            if k < 0.45 and not forced:
+                prop = rng.choice(['wavelength_to_pixel', 'min_bins_per_pixel', 'name'])
+                forced = [rng.choice({'min_bins_per_pixel': ['getBins'], 'name': ['getKwargs']}.get(
+                    prop, ['getBins', 'getMin', 'getMax', 'getWavelengths', 'getW2p']))]
+                if prop == 'wavelength_to_pixel':
+                    val = rng.choice(bad_w2p) if rng.random() < 0.25 else gen_w2p(rng)
+                    line = 'spm setW2p ' + _arr_line(val)
+                    arg = tuple(np.array(a, dtype=float) for a in val) if rng.random() < 0.5 else [list(a) for a in val]
+                elif prop == 'min_bins_per_pixel':
+                    val = rng.choice([0, -3, -1, -0.5, 0.9]) if rng.random() < 0.25 else rng.choice([_gen_value(rng, prop), rng.randint(1, 9) + 0.7])
+                    line = 'spm setMbpp %d' % int(val)               # the model receives int(value), as the setter computes it
+                    arg = val
+                else:
+                    val = arg = rng.choice(NAMES)
+                    line = 'spm setName ' + hexs(val)
+                try:
+                    setattr(inst, prop, arg)
+                    real = 'done'
+                except ValueError:
+                    real = 'ValueError'
+                hist.append(['set', prop, val])
+                stream.add(line, _m2chk(real, None, list(hist), W), 'machine-spectrometer')
+                ctx.count('machine-spectrometer:set' + (':rejected' if real != 'done' else ''))
+            elif k < 0.9 or forced:
+                g = forced.pop(0) if forced else rng.choice(['getMin', 'getMax', 'getBins', 'getW2p', 'getWavelengths', 'getMbpp', 'getName',
+                                                             'getClasses', 'getKwargs'])
+                hist.append(['get', g])
+                if g == 'getMin':
+                    real, v = 'num', float(inst.min_wavelength)
+                elif g == 'getMax':
+                    real, v = 'num', float(inst.max_wavelength)
+                elif g == 'getBins':
+                    real, v = 'int', int(inst.spectral_bins)
+                elif g == 'getW2p':
+                    real, v = 'arrays', [[float(x) for x in a] for a in inst.wavelength_to_pixel]
+                elif g == 'getWavelengths':
+                    real, v = 'arrays', [[float(x) for x in a] for a in inst.wavelengths]
+                elif g == 'getMbpp':
+                    real, v = 'int', int(inst.min_bins_per_pixel)
+                elif g == 'getName':
+                    real, v = 'str', inst.name
+                elif g == 'getClasses':
+                    real, v = 'int', len(inst.pipeline_classes)
+                else:
+                    real, v = 'names', [d['name'] for d in inst.pipeline_kwargs]
+                stream.add('spm ' + g, _m2chk(real, v, list(hist), W), 'machine-spectrometer')
+                ctx.count('machine-spectrometer:get')
+            else:
+                lo, hi = float(inst.min_wavelength), float(inst.max_wavelength)
+                smin, smax = (lo + 0.01, hi + 1.0) if rng.random() < 0.3 else (lo - 1.0, hi + 1.0)
+                sp = Spectrum(smin, smax, 7)
+                sp.samples[:] = 2.5
+                hist.append(['calibrate', 2.5, smin, smax])
+                try:
+                    real, v = 'arrays', [[float(x) for x in a] for a in inst.calibrate(sp)]
+                except ValueError:
+                    real, v = 'ValueError', None
+                stream.add('spm calib %s' % fs([2.5, smin, smax]), _m2chk(real, v, list(hist), W, rel=1e-9), 'machine-spectrometer')
+                ctx.count('machine-spectrometer:calibrate')
+        ctx.case(key=('spm', json.dumps(hist, default=str)[:300]))
+
+
+NOT_A_FILTER = ['x', 3.0, None, (656.1, 3.0)]
+
+
+def polychromator_machine(ctx, stream, n):
+    """K for `polyInit` / `polyStep`: construction (ValueError before TypeError), accepted and rejected assignments,
+    every getter, `create_pipelines()` on a real `Polychromator` and on the value-level machine.  A filter travels as
+    (name, min_wavelength, max_wavelength, window) read from the real filter object; an object that is not a
+    `PolychromatorFilter` as flag 0.  Bit-for-bit comparison; filters are also compared by identity on the real side."""
+    from cherab.tools.spectroscopy import Polychromator
+    rng = ctx.rng
+    W = 'value-level machine: Polychromator'
+
+    def geom(f):
+        return (float(f.min_wavelength), float(f.max_wavelength), float(f.window))
+
+    def gen_filters(bad):
+        fl = [make_filter(gen_filter(rng)) for _ in range(rng.randint(1, 4))]
+        if bad:
+            fl.insert(rng.randint(0, len(fl)), rng.choice(NOT_A_FILTER))
+        if len(fl) > 1 and rng.random() < 0.2:
+            fl.append(fl[0])                                      # the same filter object twice
+        return fl
+
+    def fline(fl):
+        from cherab.tools.spectroscopy import PolychromatorFilter
+        return '%d %s' % (len(fl), ' '.join('1 %s %s' % (hexs(f.name), fs(list(geom(f)))) if isinstance(f, PolychromatorFilter)
+                                            else '0 - %s' % fs([0.0, 0.0, 0.0]) for f in fl))
+
+    def desc(fl):
+        return [(f.name,) + geom(f) if hasattr(f, 'window') else repr(f) for f in fl]
+
+    for it in range(n):
+        both = rng.random() < 0.06                               # both arguments invalid: the order of validation decides
+        fl = gen_filters(both or rng.random() < 0.1)
+        mbpw = rng.choice([0, -1, -7]) if both or rng.random() < 0.1 else _gen_value(rng, 'min_bins_per_window')
+        name = rng.choice(NAMES)
+        hist = [['new', desc(fl), mbpw, name]]
+        try:
+            inst = Polychromator(fl, mbpw, name)
+            real = 'done'
+        except ValueError:
+            inst, real = None, 'ValueError'
+        except TypeError:
+            inst, real = None, 'TypeError'
+        stream.add('plm new %d %s %s' % (mbpw, hexs(name), fline(fl)), _m2chk(real, None, list(hist), W), 'machine-polychromator')
+        ctx.count('machine-polychromator:new' + (':' + real if inst is None else ''))
+        if inst is None:
+            ctx.case(key=('plm', json.dumps(hist, default=str)[:300]))
+            continue
+        cur = fl
+        # half of the histories start with every cache filled, and every assignment is followed by a read of a cache
+        forced = ['createPipelines', 'getBins'] if rng.random() < 0.5 else []
+        for _ in range(rng.randint(2, 12)):
+            k = rng.random()
+            if k < 0.45 and not forced:
+                prop = rng.choice(['filters', 'min_bins_per_window', 'name'])
+                forced = [rng.choice({'min_bins_per_window': ['getBins'], 'name': ['getKwargs', 'createPipelines']}.get(
+                    prop, ['getKwargs', 'createPipelines', 'getClasses', 'getBins', 'getMin', 'getMax']))]
+                if prop == 'filters':
+                    arg = gen_filters(rng.random() < 0.25)
+                    val = desc(arg)
+                    line = 'plm setFilters ' + fline(arg)
+                elif prop == 'min_bins_per_window':
+                    val = arg = rng.choice([0, -1, -0.5, 0.9]) if rng.random() < 0.25 else rng.choice([_gen_value(rng, prop), rng.randint(1, 9) + 0.7])
+                    line = 'plm setMbpw %d' % int(val)
+                else:
+                    val = arg = rng.choice(NAMES)
+                    line = 'plm setName ' + hexs(val)
+                try:
+                    setattr(inst, prop, arg)
+                    real = 'done'
+                    if prop == 'filters':
+                        cur = arg
+                except ValueError:
+                    real = 'ValueError'
+                except TypeError:
+                    real = 'TypeError'
+                hist.append(['set', prop, val])
+                stream.add(line, _m2chk(real, None, list(hist), W), 'machine-polychromator')
+                ctx.count('machine-polychromator:set' + (':' + real if real != 'done' else ''))
+            else:
+                g = forced.pop(0) if forced else rng.choice(['getMin', 'getMax', 'getBins', 'getFilters', 'getMbpw', 'getName', 'getClasses',
+                                                             'getKwargs', 'createPipelines'])
+                hist.append(['get', g])
+                ident = True
+                if g == 'getMin':
+                    real, v = 'num', float(inst.min_wavelength)
+                elif g == 'getMax':
+                    real, v = 'num', float(inst.max_wavelength)
+                elif g == 'getBins':
+                    real, v = 'int', int(inst.spectral_bins)
+                elif g == 'getFilters':
+                    got = list(inst.filters)
+                    real, v = 'filters', [(f.name,) + geom(f) for f in got]
+                    ident = len(got) == len(cur) and all(a is b for a, b in zip(got, cur))
+                elif g == 'getMbpw':
+                    real, v = 'int', int(inst.min_bins_per_window)
+                elif g == 'getName':
+                    real, v = 'str', inst.name
+                elif g == 'getClasses':
+                    real, v = 'int', len(inst.pipeline_classes)
+                elif g == 'getKwargs':
+                    kw = inst.pipeline_kwargs
+                    real, v = 'kwargs', [(d['name'], d['filter'].name) + geom(d['filter']) for d in kw]
+                    ident = len(kw) == len(cur) and all(d['filter'] is b for d, b in zip(kw, cur))
+                else:
+                    pl = inst.create_pipelines()
+                    real, v = 'kwargs', [(q.name, q.filter.name) + geom(q.filter) for q in pl]
+                    ident = len(pl) == len(cur) and all(q.filter is b for q, b in zip(pl, cur))
+                if not ident:
+                    ctx.broke('correspondence', 'C16 stream machine-polychromator', dict(why='filter objects returned are not the assigned ones, in order', history=list(hist)))
+                stream.add('plm ' + g, _m2chk(real, v, list(hist), W), 'machine-polychromator')
+                ctx.count('machine-polychromator:get')
+        ctx.case(key=('plm', json.dumps(hist, default=str)[:300]))
+
+
 # ------------------------------------------------------------------------------------------------ aliasing histories
 CONTAINER_PARAMS = ('wavelength_to_pixel', 'accommodated_spectra', 'filters')
 OBSERVED_ALIASING = {}       # class -> set of attributes seen to keep a reference to the caller's object (K vs. table)
@@ -1384,8 +1639,9 @@ def run(ctx):
     ok2 = ctx.lean_check(['Cherab.Props.C16Table'], 'Cherab/Audit/C16Table.lean')
     ok3 = ctx.lean_check(['Cherab.Props.C16Init'], 'Cherab/Audit/C16Init.lean')
     ok4 = ctx.lean_check(['Cherab.Props.C16Alias'], 'Cherab/Audit/C16Alias.lean')
-    ctx.checker_cmd = ('cd %s/lean && lake build Cherab.Props.C16 Cherab.Props.C16Table Cherab.Props.C16Init Cherab.Props.C16Alias && '
-                       'for f in C16 C16Table C16Init C16Alias; do lake env lean Cherab/Audit/$f.lean; done' % VERIF)
+    ok5 = ctx.lean_check(['Cherab.Props.C16Machines'], 'Cherab/Audit/C16Machines.lean')
+    ctx.checker_cmd = ('cd %s/lean && lake build Cherab.Props.C16 Cherab.Props.C16Table Cherab.Props.C16Init Cherab.Props.C16Alias Cherab.Props.C16Machines && '
+                       'for f in C16 C16Table C16Init C16Alias C16Machines; do lake env lean Cherab/Audit/$f.lean; done' % VERIF)
     # 3. K + S on the implementation
     rng = ctx.rng
     vals = Values()
@@ -1449,6 +1705,8 @@ def run(ctx):
     valid_cases(ctx, stream, ctx.n(150, 5000))
     INEXACT[0] = 0
     machine_histories(ctx, stream, ctx.n(60, 1500))
+    spectrometer_machine(ctx, stream, ctx.n(60, 1500))
+    polychromator_machine(ctx, stream, ctx.n(60, 1500))
 
     # 4. run the model on everything that was recorded
     outs = ctx.driver(stream.lines)
